@@ -64,26 +64,29 @@ def Chain.out : Chain → Option Nat
 /-- the selected branch of a list of branch results (an index out of range selects nothing) -/
 def pick {α : Type} (b : Nat) (kids : List α) : Option α := kids[b]?
 
+/-- the value of the condition input after this cycle's selector tick (if any) -/
+def newCond (n : SelNode) (ctick : Option Nat) : Option Nat :=
+  match ctick with
+  | some b => some b
+  | none => n.cond
+
 /-- ONE evaluation of `if_then_else_impl::eval` / `if_cmp_impl::eval`.
 `ctick` = the condition ticked in this cycle with this branch index; `kids` = per branch the reference it
 publishes after its own evaluation in this cycle and whether that REF output ticked in this cycle.
 Returns the new node state and whether the node's REF output ticked. -/
 def nodeStep (n : SelNode) (ctick : Option Nat) (kids : List (Option Nat × Bool)) : SelNode × Bool :=
-  let cond' := match ctick with
-    | some b => some b
-    | none => n.cond
-  match cond' with
+  match newCond n ctick with
   | none => (n, false)                       -- condition not valid: the node is not evaluated
   | some b =>
     match pick b kids with
-    | none => ({ n with cond := cond' }, false)
+    | none => ({ cond := some b, out := n.out }, false)
     | some (ref, refTicked) =>
-      if !(ctick.isSome || refTicked) then ({ n with cond := cond' }, false)     -- guard
+      if !(ctick.isSome || refTicked) then ({ cond := some b, out := n.out }, false)     -- guard
       else match ref with
-        | none => ({ n with cond := cond' }, false)                              -- `!selected.valid()`
+        | none => ({ cond := some b, out := n.out }, false)                              -- `!selected.valid()`
         | some r =>
-          if n.out = some r then ({ n with cond := cond' }, false)               -- same reference: no tick
-          else ({ cond := cond', out := some r }, true)
+          if n.out = some r then ({ cond := some b, out := n.out }, false)               -- same reference: no tick
+          else ({ cond := some b, out := some r }, true)
 
 /-- one engine cycle of the selection tree, bottom-up: the new tree and whether its root REF ticked.
 `cin id` = the replayed selector of node `id` in this cycle. -/
